@@ -218,3 +218,28 @@ Proof.
     split; apply Forall_forall; intros x Hx; [eapply forallb_forall in He|eapply forallb_forall in Ht]; eauto.
   - apply IH. exact H2.
 Qed.
+
+(* ------------------------------------------------------------------ statements used verbatim by Properties.v *)
+
+Lemma progress_otherwise_full nfkd r m w :
+  known w -> truthy (r_error r) = false -> r_done r = false ->
+  status nfkd r m w = Progress (progress_status r m) /\
+  (truthy (r_info r) = true -> progress_status r m = r_info r) /\
+  (truthy (r_info r) = false -> r_done m = false -> progress_status r m = r_info m).
+Proof.
+  intros K E D. split; [exact (status_progress nfkd r m w K E D)|].
+  unfold progress_status. split; intros H; rewrite H; [reflexivity|]. intros ->. reflexivity.
+Qed.
+
+Lemma other_writer_full :
+  (forall nfkd (q q' : str -> option snap) c w,
+     q (render_jobid c w) = q' (render_jobid c w) -> q (makezip_jobid c) = q' (makezip_jobid c) ->
+     do_render_status nfkd q c w = do_render_status nfkd q' c w) /\
+  (forall c w w', render_jobid c w = render_jobid c w' -> w = w') /\
+  (forall c w, render_jobid c w <> makezip_jobid c) /\
+  (forall c c' w w', no_char 58%N c -> no_char 58%N c' -> render_jobid c w = render_jobid c' w' -> c = c' /\ w = w') /\
+  (forall c c' w, no_char 58%N c -> no_char 58%N c' -> render_jobid c w <> makezip_jobid c').
+Proof.
+  split; [exact status_local|]. split; [exact render_jobid_inj_w|]. split; [exact render_ne_makezip|].
+  split; [exact render_jobid_inj|exact render_ne_makezip_any].
+Qed.
